@@ -15,7 +15,9 @@ class IndentationFeatures(object):
     @property
     def is_fitted(self):
         if self.is_valid:
-            return self.dataset.fit_properties["success"]
+            # (no "success" key: preprocessed but not fitted, or a
+            # setting was changed after the fit)
+            return self.dataset.fit_properties.get("success", False)
         else:
             return False
 
@@ -60,7 +62,7 @@ class IndentationFeatures(object):
 
     @property
     def datay_apr(self):
-        yaxis = self.dataset.fit_properties["y_axis"]
+        yaxis = self.dataset.fit_properties.get("y_axis", "force")
         seg = self.dataset["segment"] == 0
         y = self.dataset[yaxis][seg].copy()
         return y
